@@ -75,7 +75,7 @@ type Path struct {
 	calls      map[*ssa.Function]int
 	forks      [][]int64
 	res        *PathResult
-	stubs      map[string]*ssa.Function
+	stubs map[string]Value
 	known      map[string]*smt.Term // active known-finding regions: id -> predicate
 	catchDepth int
 	depth      int
